@@ -237,6 +237,10 @@ impl AsyncWrite for UtpStreamWriteHalf {
 
         g.writer_shutdown = true;
         update_optional_waker(&mut g.writer_waker, cx);
+        // The dispatcher must notice the request to send the FIN.
+        if let Some(w) = g.dispatcher_waker.take() {
+            w.wake();
+        }
         Poll::Pending
     }
 }
